@@ -1,5 +1,116 @@
 import QModel.Core
-/-! C17 — model (not built yet) -/
+import QModel.C18
+/-!
+# C17 — catalogued objects: executable certificate checkers
+
+The catalogues of quara build float arrays from names; they are not re-implemented here. What is
+executed is a set of *certificate checkers* over complex rationals (every float is one) that decide, for a
+concrete implementation output, statements with kernel-checked soundness theorems (QProps/C17.lean):
+
+* `psdCert M V λ ε`  : `M` exactly Hermitian and `‖M − V·diag(max λ 0)·Vᴴ‖_F² ≤ ε²`  ⇒  `M + ε·1` is PSD
+  (no unitarity of the float eigenvectors `V` is needed);
+* `unitaryCert U ε`  : `‖UᴴU − 1‖_F² ≤ ε²`;
+* exact equality-constraint defects: `trace1Cert` (`|tr M − 1|² ≤ ε²`), `povmSumCert` (`‖ΣM_x − 1‖_F² ≤ ε²`),
+  `tpCert` (first row of an HS matrix vs `e₀`), `hsUnitaryCert` (`‖hs − hsOfUnitary B U‖_F² ≤ ε²`).
+
+The residual builders are scalar-polymorphic (reasoned about at `ℂ`), the comparisons are at `CRat`/`Rat`.
+`CRat`, `adj`, `trMul`, `Basis` are shared with `QModel.C18`.
+-/
 namespace QM.C17
-def handle (_args : List String) : Option String := none
+open QM QM.C18
+
+section core
+variable {K : Type} [Add K] [Mul K] [Neg K] [Sub K] [Zero K] [One K] [HasConj K] {m n d : Nat}
+
+/-- squared Frobenius norm `Σ conj(a)·a` (a scalar with vanishing imaginary part) -/
+def frob2 (A : Mat K m n) : K := fsum m fun i => fsum n fun j => conj (A.get i j) * A.get i j
+
+def diag (v : Vec K n) : Mat K n n := Mat.ofFn fun i j => if i = j then v.get i else 0
+
+/-- `M − V·diag(λ₊)·Vᴴ` -/
+def psdResid (M V : Mat K n n) (lp : Vec K n) : Mat K n n :=
+  M.sub ((V.mul (diag lp)).mul (adj V))
+
+/-- `UᴴU − 1` -/
+def unitaryResid (U : Mat K n n) : Mat K n n := ((adj U).mul U).sub Mat.one
+
+/-- `Σ_x M_x − 1` -/
+def sumResid (Ms : List (Mat K n n)) : Mat K n n := (Ms.foldl Mat.add Mat.zero).sub Mat.one
+
+/-- HS matrix of `ρ ↦ UρUᴴ` in the basis `B`: `hs[a,b] = tr(B_aᴴ · U B_b Uᴴ)` -/
+def hsOfUnitary (B : Basis K d) (U : Mat K d d) : Mat K (d * d) (d * d) :=
+  Mat.ofFn fun a b => trMul (adj (B.get a)) ((U.mul (B.get b)).mul (adj U))
+end core
+
+/-! ## deciders -/
+
+def clipPos {n : Nat} (lam : Vec Rat n) : Vec CRat n :=
+  Vec.ofFn fun i => CRat.ofRat (if lam.get i < 0 then 0 else lam.get i)
+
+def psdCert {n : Nat} (M V : Mat CRat n n) (lam : Vec Rat n) (eps : Rat) : Bool :=
+  decide (0 ≤ eps) && decide (M = adj M) &&
+    decide ((frob2 (psdResid M V (clipPos lam))).re ≤ eps * eps)
+
+def unitaryCert {n : Nat} (U : Mat CRat n n) (eps : Rat) : Bool :=
+  decide ((frob2 (unitaryResid U)).re ≤ eps * eps)
+
+def trace1Cert {n : Nat} (M : Mat CRat n n) (eps : Rat) : Bool :=
+  decide (CRat.abs2 (M.trace - 1) ≤ eps * eps)
+
+def povmSumCert {n : Nat} (Ms : List (Mat CRat n n)) (eps : Rat) : Bool :=
+  decide ((frob2 (sumResid Ms)).re ≤ eps * eps)
+
+/-- squared distance of the first row of a real HS matrix from `e₀` -/
+def tpResid2 {n : Nat} (hs : Mat Rat n n) : Rat :=
+  fsum n fun i => fsum n fun j =>
+    if i.val = 0 then
+      let x := hs.get i j - (if j.val = 0 then 1 else 0)
+      x * x
+    else 0
+
+def tpCert {n : Nat} (hs : Mat Rat n n) (eps : Rat) : Bool := decide (tpResid2 hs ≤ eps * eps)
+
+def hsUnitaryCert {d : Nat} (B : Basis CRat d) (U : Mat CRat d d) (hs : Mat Rat (d * d) (d * d))
+    (eps : Rat) : Bool :=
+  decide ((frob2 ((embed hs).sub (hsOfUnitary B U))).re ≤ eps * eps)
+
+/-! ## driver -/
+
+def parseRVec (s : String) (n : Nat) : Option (Vec Rat n) := do
+  let l ← parseList? parseRat? s
+  listToVec? l n
+
+def handle (args : List String) : Option String :=
+  match args with
+  | ["psdcert", ns, M, V, lam, eps] => do
+      let n ← parseNat? ns
+      let M ← parseCMat M n n
+      let V ← parseCMat V n n
+      let lam ← parseRVec lam n
+      let eps ← parseRat? eps
+      some s!"ok {psdCert M V lam eps} {showRat (frob2 (psdResid M V (clipPos lam))).re} {decide (M = adj M)}"
+  | ["unitarycert", ns, U, eps] => do
+      let n ← parseNat? ns
+      let U ← parseCMat U n n
+      some s!"ok {unitaryCert U (← parseRat? eps)} {showRat (frob2 (unitaryResid U)).re}"
+  | ["trace1", ns, M, eps] => do
+      let n ← parseNat? ns
+      let M ← parseCMat M n n
+      some s!"ok {trace1Cert M (← parseRat? eps)} {showRat (CRat.abs2 (M.trace - 1))}"
+  | ["povmsum", ns, Ms, eps] => do
+      let n ← parseNat? ns
+      let Ms ← parseCMats Ms n
+      some s!"ok {povmSumCert Ms (← parseRat? eps)} {showRat (frob2 (sumResid Ms)).re}"
+  | ["tpcert", ns, hs, eps] => do
+      let n ← parseNat? ns
+      let hs ← parseRMat hs n n
+      some s!"ok {tpCert hs (← parseRat? eps)} {showRat (tpResid2 hs)}"
+  | ["hsunitary", ds, bs, U, hs, eps] => do
+      let d ← parseNat? ds
+      let B ← parseBasis bs d
+      let U ← parseCMat U d d
+      let hs ← parseRMat hs (d * d) (d * d)
+      some s!"ok {hsUnitaryCert B U hs (← parseRat? eps)} {showRat (frob2 ((embed hs).sub (hsOfUnitary B U))).re}"
+  | _ => none
+
 end QM.C17
